@@ -820,4 +820,20 @@ theorem inv_run (fuel : Nat) (fresh : Bool) (prog : List Op) :
     Inv (hasHeapCreate prog) (nHeapCreate prog) fresh (run fuel fresh prog) :=
   (inv_foldl_step fuel prog (inv_init False 0 fresh)).mono (fun h => h.elim False.elim id) (by omega)
 
+/-! ### the allocation log (the events among the output tokens, oldest first) -/
+
+theorem mem_allocLog {s : State} {t : Tok} : t ∈ allocLog s ↔ t ∈ s.out ∧ isEv t = true := by
+  simp [allocLog, List.mem_filter]
+
+theorem nFrameAlloc_filter (l : List Tok) : nFrameAlloc (l.filter isEv) = nFrameAlloc l := by
+  induction l with
+  | nil => rfl
+  | cons t ts ih =>
+    rw [List.filter_cons]
+    cases t with
+    | alloc c n h => simp only [isEv, if_true, nFrameAlloc_cons, ih]
+    | free c n => simp only [isEv, if_true, nFrameAlloc_cons, ih]
+    | act j l => simpa [isEv, nFrameAlloc_cons, Tok.isFrameAlloc] using ih
+    | cb i => simpa [isEv, nFrameAlloc_cons, Tok.isFrameAlloc] using ih
+
 end Cocls.Alloc
